@@ -234,6 +234,8 @@ example : evalRule exEnv (.cmp (.ts .eq) "$.t".toList (.str "2020-01-01T00:00:00
   decide
 /-- parse_print_rfc3339: a record with a fraction and a non-zero minute offset is `ok` -/
 example : (⟨2024, 2, 29, 23, 59, 59, [0, 0, 1], -1439, false⟩ : Ts).ok = true := by decide
+/-- days_next_month: February of a leap year to March -/
+example : 1 ≤ 2 ∧ 2 < 12 ∧ daysFromCivil 2024 3 1 = daysFromCivil 2024 2 29 + 1 := by decide
 /-- first_match_wins: a failing rule before a matching one -/
 example : (∀ c ∈ [((Rule.is .null "$.v".toList true), "A".toList)], evalRule exEnv c.1 = false) ∧
     evalRule exEnv (.cmp (.str .ge) "$.s".toList (.str "abc".toList)) = true := by decide
